@@ -604,7 +604,11 @@ func runSweep(w *World) *sweepResult {
 					sr.failed = append(sr.failed, shortName(k)+": "+fmt.Sprint(r))
 				}
 			}()
-			res = genFunc(w, fi, "safety")
+			mode := "safety"
+			if fi.Contract != nil && len(fi.Contract.Props) > 0 && !fi.Contract.Trusted {
+				mode = "full" // functions under a full contract: their loop invariants discharge the safety sites
+			}
+			res = genFunc(w, fi, mode)
 		}()
 		if res == nil {
 			continue
@@ -623,6 +627,45 @@ func runSweep(w *World) *sweepResult {
 				safe = append(safe, o)
 			}
 		}
+		// function literals are not translated as part of their function: sweep each body on its own,
+		// with arbitrary parameters and captured variables
+		nlit := 0
+		ast.Inspect(fi.Decl.Body, func(n ast.Node) bool {
+			fl, ok := n.(*ast.FuncLit)
+			if !ok {
+				return true
+			}
+			nlit++
+			func() {
+				defer func() {
+					if r := recover(); r != nil {
+						sr.failed = append(sr.failed, fmt.Sprintf("%s$lit%d: %v", shortName(k), nlit, r))
+					}
+				}()
+				fv, st := newScratchVC(w, fi)
+				fv.mode = "safety"
+				fv.litMode = true
+				for _, f := range fl.Type.Params.List {
+					for _, name := range f.Names {
+						if o, ok := fv.info.Defs[name].(*types.Var); ok {
+							st.vars[o] = fv.havocVal(st, o.Name(), o.Type())
+						}
+					}
+				}
+				fv.bindFreeVars(fl.Body, st)
+				fv.curPos = fl.Pos()
+				fv.execBlock(fl.Body.List, st)
+				for _, o := range fv.obls {
+					if o.Kind != "safe" {
+						continue
+					}
+					o.Name = strings.Replace(o.Name, "#", fmt.Sprintf("$lit%d#", nlit), 1)
+					o.facts = fv.facts[:o.NFacts]
+					safe = append(safe, o)
+				}
+			}()
+			return true
+		})
 		for o, key := range siteKeys(safe) {
 			sr.keys[o] = key
 		}
@@ -639,7 +682,16 @@ func safetySweep(cc *checkCtx, w *World) *extraResult {
 	if cc.tier == "thorough" {
 		opts.TimeoutS = 20
 	}
-	solveAll(sr.obls, opts)
+	// quick tier: the sites acknowledged as unproved are not attempted again (each costs a full timeout)
+	var toSolve []*Obligation
+	for _, o := range sr.obls {
+		if _, ok := baseline[sr.keys[o]]; ok && cc.tier != "thorough" {
+			o.Result = "not-attempted"
+			continue
+		}
+		toSolve = append(toSolve, o)
+	}
+	solveAll(toSolve, opts)
 	var unprovedBaseline []string
 	proved := 0
 	for _, o := range sr.obls {
